@@ -57,8 +57,9 @@ def panic_summary(rep):
 
 def conn_fuzz(rep, tier, seed):
     """connection-level hostile input on the real endpoint"""
-    plan = [("fuzz", 260, 70), ("chaos", 120, 100), ("fuzz", 120, 160)] if tier == "quick" else \
-           [("fuzz", 6000, 70), ("chaos", 2500, 110), ("fuzz", 2500, 200), ("control", 800, 100)]
+    # bplimits: over-limit streams while writes are blocked with a full codec (single-slot asserts of the refusal path)
+    plan = [("fuzz", 260, 70), ("chaos", 120, 100), ("bplimits", 400, 140), ("fuzz", 120, 160)] if tier == "quick" else \
+           [("fuzz", 6000, 70), ("chaos", 2500, 110), ("bplimits", 4000, 150), ("fuzz", 2500, 200), ("control", 800, 100)]
     n_cases = n_viol = 0
     kinds, goaways, chaos_ops = {}, {}, 0
     for pi, (prof, n, steps) in enumerate(plan):
